@@ -930,6 +930,38 @@ func (il *inliner) collectStmt(f *ilFile, s ast.Stmt, ret *retCtx, tail bool) []
 	case *ast.BlockStmt:
 		return il.collectStmts(f, x.List, ret)
 	case *ast.ForStmt:
+		// for h() { body }  ==>  for { c := h(); if !(c) { break }; body }   (no init/post: `continue` still
+		// re-evaluates the condition at the top of the loop)
+		if x.Init == nil && x.Post == nil && x.Cond != nil {
+			if sites := il.nestedSites(f, x.Cond); len(sites) > 0 {
+				var pre []string
+				var reps []sub
+				okH := true
+				for _, c := range sites {
+					_, h := il.siteCall(f, c, false)
+					if h == nil || h.decl.Type.Results == nil || len(h.decl.Type.Results.List) != 1 || len(h.decl.Type.Results.List[0].Names) > 1 {
+						okH = false
+						break
+					}
+					il.n++
+					tmp := fmt.Sprintf("__h%d", il.n)
+					t := il.expand(f, c, h, kAssign, tmp, ":=", ret, f.line(x.Cond.Pos()))
+					if t == "" {
+						okH = false
+						break
+					}
+					pre = append(pre, t)
+					reps = append(reps, sub{f.off(c.Pos()), f.off(c.End()), tmp})
+				}
+				// a labelled loop or unlabelled break/continue inside the body keep their meaning: the loop
+				// statement itself stays the same `for`
+				if okH {
+					cond := applySubs(f.src, f.off(x.Cond.Pos()), f.off(x.Cond.End()), reps)
+					body := applySubs(f.src, f.off(x.Body.Lbrace)+1, f.off(x.Body.Rbrace), il.collectStmts(f, x.Body.List, ret))
+					return mk("for { " + strings.Join(pre, "; ") + "; if !(" + cond + ") { break }\n" + fmt.Sprintf("//line %s:%d\n", f.name, f.line(x.Body.Lbrace)) + body + "}")
+				}
+			}
+		}
 		out := il.funcLitSubs(f, x.Cond)
 		return append(out, il.collectStmt(f, x.Body, ret, false)...)
 	case *ast.RangeStmt:
